@@ -6,6 +6,7 @@ import (
 	"go/token"
 	"go/types"
 	"math/big"
+	"strings"
 
 	"golang.org/x/tools/go/ssa"
 )
@@ -340,6 +341,11 @@ func (r *FnRun) execSimple(fr *Frame, st *State, in ssa.Instruction) {
 		if !ok {
 			unsup("store through non-pointer %T", av)
 		}
+		// storing a linear resource into memory that outlives this frame
+		// (heap object, captured variable) hands it over
+		if p.Kind != pkCell || p.Cell.freevar || st.hv["escaped:"+p.Cell.key()] {
+			r.linearTransfer(st, r.val(fr, st, x.Val), "stored into shared memory")
+		}
 		r.store(st, p, r.val(fr, st, x.Val), r.e.describe(fr.fn, in))
 	case *ssa.UnOp:
 		fr.vals[x] = r.unop(fr, st, x)
@@ -521,6 +527,13 @@ func (r *FnRun) indexAddr(fr *Frame, st *State, x *ssa.IndexAddr) Val {
 	switch xt := under(x.X.Type()).(type) {
 	case *types.Slice:
 		s := r.val(fr, st, x.X).(SliceVal)
+		if strings.HasPrefix(idx.S, "(") && !r.bv {
+			// name compound index terms so that quantified facts about
+			// elements can be instantiated by matching
+			c := r.fresh("ix", idx.Sort)
+			r.assume(Eq(c, idx))
+			idx = c
+		}
 		r.oblige("BOUNDS", where, And(r.idxLe(r.idxLit(0), idx), r.idxLt(idx, s.Len)), st)
 		return PtrVal{Kind: pkElem, Base: s.Base, Idx: r.idxAdd(s.Off, idx), Root: "[]" + typeKey(xt.Elem()), Elem: xt.Elem()}
 	case *types.Pointer:
